@@ -138,26 +138,29 @@ def fix_fractions(x):
 
 
 def standard_run(pid, judge, tags, tier, seed, drv, sources, nontrivial=None, rule='', n_quick=150, n_thorough=5000,
-                 kind='rat', judge_params='', judge_extra=None, probes=None):
+                 kind='rat', judge_params='', judge_extra=None, probes=None, refine=None):
     """sources: list of functions rng -> scenario, used round-robin; probes: list of
     (finding id, scenario) replayed first (dedicated probes of known findings)"""
     from common import rng_for
     st = Suite(pid, drv, judge, tags, kind=kind, judge_params=judge_params)
     st.res.rule = rule
+    rf = (lambda sc: (lambda msg, impl, model: refine(msg, impl, model, sc))) if refine else (lambda sc: None)
     for sc in corpus(pid):
-        st.check(fix_fractions(sc), nontrivial=nontrivial, judge_extra=judge_extra(sc) if callable(judge_extra) else judge_extra)
+        sc = fix_fractions(sc)
+        st.check(sc, nontrivial=nontrivial, judge_extra=judge_extra(sc) if callable(judge_extra) else judge_extra, refine=rf(sc))
     for fid, sc in (probes or []):
-        st.check(sc, nontrivial=nontrivial, probe=fid, judge_extra=judge_extra(sc) if callable(judge_extra) else judge_extra)
+        st.check(sc, nontrivial=nontrivial, probe=fid, judge_extra=judge_extra(sc) if callable(judge_extra) else judge_extra, refine=rf(sc))
     n = n_quick if tier == 'quick' else n_thorough
     for i in range(n):
         rng = rng_for(seed, pid, i)
         sc = sources[i % len(sources)](rng)
-        st.check(sc, nontrivial=nontrivial, judge_extra=judge_extra(sc) if callable(judge_extra) else judge_extra)
+        st.check(sc, nontrivial=nontrivial, judge_extra=judge_extra(sc) if callable(judge_extra) else judge_extra, refine=rf(sc))
     return st.finish()
 
 
-def standard_replay(pid, judge, tags, data, drv, kind='rat', judge_params='', judge_extra=None):
+def standard_replay(pid, judge, tags, data, drv, kind='rat', judge_params='', judge_extra=None, refine=None):
     st = Suite(pid, drv, judge, tags, kind=data.get('kind', kind), judge_params=judge_params)
     sc = fix_fractions(data.get('scenario') or data['case']['scenario'])
-    st.check(sc, judge_extra=judge_extra(sc) if callable(judge_extra) else judge_extra)
+    st.check(sc, judge_extra=judge_extra(sc) if callable(judge_extra) else judge_extra,
+             refine=(lambda msg, impl, model: refine(msg, impl, model, sc)) if refine else None)
     return st.finish()
